@@ -494,6 +494,9 @@ impl TcCache {
     }
 
     pub fn contains_toolchain(&self, tc: &Toolchain) -> bool {
+        if !tc.archive_id_is_valid() {
+            return false;
+        }
         self.inner.contains_key(make_lru_key_path(&tc.archive_id))
     }
 
@@ -502,6 +505,9 @@ impl TcCache {
         tc: &Toolchain,
         with: F,
     ) -> Result<()> {
+        if !tc.archive_id_is_valid() {
+            return Err(anyhow!("invalid toolchain id {:?}", tc.archive_id));
+        }
         self.inner
             .insert_with(make_lru_key_path(&tc.archive_id), with)?;
         let verified_archive_id = file_key(self.get(tc)?)?;
@@ -514,10 +520,16 @@ impl TcCache {
     }
 
     pub fn get_file(&mut self, tc: &Toolchain) -> LruResult<fs::File> {
+        if !tc.archive_id_is_valid() {
+            return Err(crate::lru_disk_cache::Error::FileNotInCache);
+        }
         self.inner.get_file(make_lru_key_path(&tc.archive_id))
     }
 
     pub fn get(&mut self, tc: &Toolchain) -> LruResult<Box<dyn ReadSeek>> {
+        if !tc.archive_id_is_valid() {
+            return Err(crate::lru_disk_cache::Error::FileNotInCache);
+        }
         self.inner.get(make_lru_key_path(&tc.archive_id))
     }
 
@@ -530,6 +542,9 @@ impl TcCache {
     }
 
     pub fn remove(&mut self, tc: &Toolchain) -> LruResult<()> {
+        if !tc.archive_id_is_valid() {
+            return Ok(());
+        }
         self.inner.remove(make_lru_key_path(&tc.archive_id))
     }
 
